@@ -213,7 +213,30 @@ class Run:
                     self.obligations.append((n, bool(good)))
                 first_failed = first_failed or ("%s:%s" % (f, failed or "?"))
         self.coq_log = log
+        self._props = (props_dir, list(files), allok)
+        if allok and self.tier == "thorough" and not os.environ.get("VERIF_NO_COQCHK"):
+            ok2, msg = self.coqchk()
+            if not ok2:
+                allok, first_failed = False, "coqchk:" + (files[0] if files else "?")
+                log += "\n" + msg
         return allok, first_failed, log
+
+    def coqchk(self, timeout=1500):
+        """thorough tier: re-check the compiled property files and everything they depend on with Coq's independent checker;
+        `-o` lists the axioms of the whole loaded context (recorded in the evidence)."""
+        props_dir, files, _ = self._props
+        mods = ["Props." + f[:-2] for f in files]
+        p = sh(["timeout", str(timeout), "coqchk", "-silent", "-o", "-Q", THEORIES, "Snoopy", "-Q", self.gen, "Gen", "-Q", props_dir, "Props"] + mods,
+               check=False, timeout=timeout + 30)
+        out = p.stdout
+        m = re.search(r"\* Axioms:(.*?)\n\s*\n\* Constants/Inductives relying on type-in-type:(.*?)\n\s*\n\* Constants/Inductives relying on unsafe \(co\)fixpoints:(.*?)\n\s*\n\* Inductives whose positivity is assumed:(.*?)\n", out, re.S)
+        summ = {"exit": p.returncode}
+        if m:
+            summ.update({"axioms": " ".join(m.group(1).split()), "type_in_type": " ".join(m.group(2).split()),
+                         "unsafe_fixpoints": " ".join(m.group(3).split()), "assumed_positivity": " ".join(m.group(4).split())})
+        self.coverage["coqchk"] = summ
+        good = p.returncode == 0 and m is not None and all(summ[k] == "<none>" for k in ("type_in_type", "unsafe_fixpoints", "assumed_positivity"))
+        return good, out[-1500:]
 
     # ---------------------------------------------------------------- drivers
     def run_model(self, area, cases_path, out_path, timeout=1800):
